@@ -10,6 +10,8 @@ hand-written meaning of what `harness/translate/tlbparsers_blk.py` emits besides
 
   * `Rd.loadHashmapS n rd sp`     the same with `key_deserializer=lambda src: Builder().store_bits(src).to_slice().load_int(n)`: signed keys
   * `Rd.refSlice`                 `lambda src: src.load_ref().begin_parse()`: a Slice value `.con "slice" (.cell c)` over the next reference
+  * `Rd.loadDictRaw n`            `Slice.load_dict(n)` without a value_deserializer (`libraries`, `prev_blk_signatures`): the values are raw
+                                  Slices — recorded as `.con "slice" .unit` (presence only: the library does not parse them)
   * `Rd.tuple`                    a Python tuple → `.con "tuple" (.record [("0", a), ("1", b)])`
   * `Rd.augWalk x y`              `parse_aug` of boc/hashmap/parse.py: label (HmLabel reader), then a leaf reads `extra:Y` THEN `value:X`
                                   from the same cell (`extras.append(y(cs)); ret[prefix] = x(cs)`), a fork walks its two references and
@@ -70,6 +72,13 @@ def refSlice (s : Frag) : R :=
   match loadRef s with
   | some (c, s') => some (.con "slice" (.cell c), s')
   | none => none
+
+/-- the value of a dictionary read WITHOUT a value_deserializer: a Slice positioned after the leaf's label.  Declared abstraction:
+    only that a Slice is there is recorded (`.con "slice" .unit`), not its content — such leaves are not parsed by the library -/
+def rawLeaf (s : Frag) : R := some (.con "slice" .unit, s)
+
+/-- `Slice.load_dict(n)` (no value_deserializer): keys ↦ Slices -/
+def loadDictRaw (n : Nat) (s : Frag) : R := loadDict n rawLeaf s
 
 /-! ### augmented dictionaries -/
 
